@@ -84,8 +84,10 @@ class Deferred(Node):
                 res = mixin.call(scope, args)
                 if res:
                     # Add variables to scope to support
-                    # closures
-                    [scope.add_variable(v) for v in mixin.vars]
+                    # closures (never over the parameters just bound)
+                    params = mixin.param_names()
+                    [scope.add_variable(v) for v in mixin.vars
+                     if v.name not in params]
                     scope.deferred = ident
                     break
 
